@@ -28,7 +28,9 @@ ASSUMPTIONS = ["json round-trips JSON values unchanged; dict keys stay distinct"
 SHAPES = [
     ("epm", [[1, 1], [0, 0]], False, Q), ("jsonld", [[1, 1], [0, 0]], False, Q), ("tsv", [[1, 0], [0, 0]], False, Q),
     ("shacl", [[1, 0], [0, 0]], False, Q, dict(budget=900, shard=5)),
-    ("epm_merged", [[1, 1]], False, Q, dict(budget=600)), ("shacl", [[1, 0], [1, 0], [0, 0]], False, T, dict(budget=1800, shard=6)),
+    ("epm_merged", [[1, 1]], False, Q, dict(budget=600)),
+    ("jsonld", [[0, 0], [1, 0]], False, Q, dict(params=dict(rewritten=True))), ("epm", [[0, 0], [1, 1]], False, Q, dict(params=dict(rewritten=True))),
+    ("tsv", [[0, 0], [0, 0]], False, Q, dict(params=dict(rewritten=True))), ("shacl", [[0, 0], [0, 0]], False, Q, dict(params=dict(rewritten=True), budget=900, shard=4)), ("shacl", [[1, 0], [1, 0], [0, 0]], False, T, dict(budget=1800, shard=6)),
     ("epm", [[2, 1], [0, 2]], False, T, dict(budget=1800, shard=6)), ("epm", [[0, 0]] * 3, False, T, dict(budget=1800, shard=6)),
     ("jsonld", [[2, 0], [1, 1]], False, T, dict(budget=1800, shard=6)), ("tsv", [[0, 0]] * 3, False, T, dict(budget=1200, shard=5)),
 ]
@@ -56,6 +58,16 @@ def build(job):
         if patterns:
             for k, r in enumerate(recs):
                 r.pattern = eng.var(f"pat{k}") if eng.flag(f"haspat{k}") else None
+        if params.get("rewritten"):
+            # the converter has been exported before (every writer, every flag) and has gained its last record since
+            conv = api.Converter([api.Record(**r.kwargs()) for r in recs[:-1]])
+            api.write_extended_prefix_map(conv, location(eng, "old.epm.json"))
+            for k, (ex, sy) in enumerate([(False, False), (False, True), (True, False), (True, True)]):
+                api.write_jsonld_context(conv, location(eng, f"old{k}.jsonld"), include_synonyms=sy, expand=ex)
+            api.write_shacl(conv, location(eng, "old.ttl"), include_synonyms=True)
+            api.write_tsv(conv, location(eng, "old.tsv"))
+            conv.add_record(api.Record(**recs[-1].kwargs()))
+            return recs, conv
         return recs, api.Converter([api.Record(**r.kwargs()) for r in recs])
 
     def epm(eng):
